@@ -55,6 +55,12 @@ OMEN_PCT = _relabel(OMEN_W, {'y': '%', 'z': ' '})
 OMEN_SYN = _relabel(OMEN_W, {'x': '=', 'y': ';', 'z': '#'})
 
 
+# three initial n-grams on one level, the middle one without any continuation (an n-gram the trainer saw only at the end of passwords): a position
+# inside the level's list of initial n-grams behind it
+OMEN_DEAD = {'ngram': 2, 'alphabet': ['x', 'd', 'y'], 'ip': {'x': 0, 'd': 0, 'y': 0}, 'ep': {},
+             'cp': {'xx': 0, 'xy': 1, 'yx': 0, 'yy': 1}, 'ln': [10, 0, 1], 'keyspace': {1: 3, 2: 3, 3: 2}}
+
+
 def omen(m, probs):
     d = dict(m)
     d['omen_prob'] = probs
@@ -89,6 +95,7 @@ def specs(tier):
     add([('D1', .5), ('M', .5)], omen(OMEN_BLANK, [(1, .5), (2, .25), (3, .125)]), 'alphabet with a blank: strings that begin / end with blanks')
     add([('M', .6), ('D1', .4)], omen(OMEN_PCT, [(1, .25), (2, .25), (3, .125)]), "alphabet x % blank, levels 1=2 tied")
     add([('D1', .5), ('M', .5)], omen(OMEN_SYN, [(1, .5), (2, .25)]), "alphabet = ; #")
+    add([('D1', .5), ('M', .5)], omen(OMEN_DEAD, [(1, .5), (2, .25)]), 'an initial n-gram without continuation between two others')
     if tier == 'thorough':
         add([('M', .5), ('A1D1', .5)], omen(OMEN_Y, [(1, .25), (2, .0625)]), 'ngram2 three letters')
         add([('A1', .5), ('M', .25), ('D1D1', .25)], omen(OMEN_X, [(1, .5), (2, .25), (3, .125)]), 'three structures')
